@@ -727,7 +727,7 @@ func (c *Constraint) CheckConstraint(param string) bool {
 			}
 		}
 	case guidConstraint:
-		_, err = uuid.Parse(param)
+		err = uuid.Validate(param)
 	case minLenConstraint:
 		data, _ := strconv.Atoi(c.Data[0])
 
